@@ -270,7 +270,7 @@ Definition i_remove (compute : bool) (s : store) (us : list uid) : tres store :=
 
 (* ------------------------------------------------------------------ queries *)
 Definition q_is_ancestor_of (s : store) (a b : uid) : bool :=
-  match find b s with Some n => is_desc n a | None => N.eqb a b end.
+  match find b s with Some n => N.eqb a b || is_desc n a | None => N.eqb a b end.
 Definition q_in (s : store) (e a : uid) : bool :=
   N.eqb e a || match find e s with Some n => is_desc n a | None => false end.
 Definition q_ancestors (s : store) (u : uid) : option (list uid) :=
